@@ -146,9 +146,19 @@ def tok (s : String) : Option (List Char) := (splitU s.toList)[3]?
 
 /-! ## The comparer -/
 
+/-- Which repairs are in: `outerPinFix` docs/fixes/compare_outer_pins.diff (landed, 8c120dd),
+    `drcFix` docs/fixes/compare_port_pins.diff (no "at least one pin" assertion),
+    `noneNameFix` docs/fixes/compare_unnamed_instance.diff (a net on an unnamed instance). -/
 structure Cfg where
   outerPinFix : Bool
+  drcFix : Bool
+  noneNameFix : Bool
   deriving DecidableEq, Repr
+
+/-- every repair applied: the comparer the C20 theorems are about -/
+abbrev cfgFixed : Cfg := ⟨true, true, true⟩
+/-- the pinned commit -/
+abbrev cfgPinned : Cfg := ⟨false, false, false⟩
 
 /-- What the comparer reads through `instance.reference`. -/
 structure RefInfo where
@@ -213,12 +223,13 @@ def cmpInst (a b : CNetlist) (io ic : Option CInst) : Res :=
   | _, _ => .error "other"          -- `None.reference`
 
 /-- `compare_ports`; `dA lA dB lB` are the names of the enclosing definitions / libraries. -/
-def cmpPort (dA lA dB lB : Option String) (p q : CPort) : Res :=
+def cmpPort (cfg : Cfg) (dA lA dB lB : Option String) (p q : CPort) : Res :=
   check (p.name == q.name) ;;
   check (p.origId == q.origId) ;;
   check (p.dir == q.dir) ;;
   check (p.scalar == q.scalar) ;;
-  check (decide (0 < p.width) && decide (0 < q.width)) ;;
+  (if cfg.drcFix then ok
+   else check (decide (0 < p.width) && decide (0 < q.width))) ;;   -- "DRC failure, ports should have at least one pin"
   check (p.width == q.width) ;;
   check (dA == dB && lA == lB)
 
@@ -245,24 +256,36 @@ def resolvePin (n : CNetlist) (d : CDef) : CPin → Option PinR
         | some p => if bit < p.width then some (.outer i.name r.dname r.lname p.name bit) else none
   | .bad => none
 
-/-- `are_instances_equivalent` -/
-def instEquiv (ia ib rda rdb rla rlb dA dB lA lB : Option String) : Res :=
-  (match ia with
-   | none => .error "other"                       -- None.startswith
-   | some na =>
-     if isAssign na then
-       match ib with
-       | none => .error "other"
-       | some nb =>
-         if isAssign nb then
-           match tok na, tok nb with
-           | some ta, some tb => check (ta == tb)
-           | _, _ => .error "index"
-         else check (ia == ib)
-     else
-       match ib with
-       | none => .error "type"     -- the assertion message `"..." + orig_name + " " + None` raises TypeError
-       | some _ => check (ia == ib)) ;;
+/-- `are_instances_equivalent`.  Repaired (`noneNameFix`): the `SDN_Assignment_` test is only made on
+    names that are present, and the assertion messages are built with `format`, so a net touching an
+    unnamed instance compares `None == None` instead of raising AttributeError / TypeError. -/
+def instEquiv (cfg : Cfg) (ia ib rda rdb rla rlb dA dB lA lB : Option String) : Res :=
+  (if cfg.noneNameFix then
+     match ia, ib with
+     | some na, some nb =>
+       if isAssign na && isAssign nb then
+         match tok na, tok nb with
+         | some ta, some tb => check (ta == tb)
+         | _, _ => .error "index"
+       else check (ia == ib)
+     | _, _ => check (ia == ib)
+   else
+     match ia with
+     | none => .error "other"                       -- None.startswith
+     | some na =>
+       if isAssign na then
+         match ib with
+         | none => .error "other"
+         | some nb =>
+           if isAssign nb then
+             match tok na, tok nb with
+             | some ta, some tb => check (ta == tb)
+             | _, _ => .error "index"
+           else check (ia == ib)
+       else
+         match ib with
+         | none => .error "type"     -- the assertion message `"..." + orig_name + " " + None` raises TypeError
+         | some _ => check (ia == ib)) ;;
   check (rda == rdb && rla == rlb && dA == dB && lA == lB)
 
 /-- `are_inner_pins_equivalent` -/
@@ -274,7 +297,7 @@ def innerEquiv (pa pb da db la lb : Option String) (ba bb : Nat) : Res :=
 def cmpPin (cfg : Cfg) (dA lA dB lB : Option String) : Option PinR → Option PinR → Res
   | some (.inner pa ba), some (.inner pb bb) => innerEquiv pa pb dA dB lA lB ba bb
   | some (.outer ia rda rla pa ba), some (.outer ib rdb rlb pb bb) =>
-    instEquiv ia ib rda rdb rla rlb dA dB lA lB ;;
+    instEquiv cfg ia ib rda rdb rla rlb dA dB lA lB ;;
     (if cfg.outerPinFix then innerEquiv pa pb rda rdb rla rlb ba bb
      else innerEquiv pa pa rda rda rla rla ba ba)   -- pinned commit: (pin_orig.inner_pin, pin_orig.inner_pin)
   | some (.inner _ _), some (.outer _ _ _ _ _) => .error "assert"
@@ -324,7 +347,7 @@ def cmpDef (cfg : Cfg) (a b : CNetlist) (lA lB : Option String) (dA dB : CDef) :
   (allM dA.ports fun p =>
     match p.name with
     | none => ok
-    | some nm => withFound (·.name) nm dB.ports fun q => cmpPort dA.name lA dB.name lB p q) ;;
+    | some nm => withFound (·.name) nm dB.ports fun q => cmpPort cfg dA.name lA dB.name lB p q) ;;
   check (dA.cables.length == dB.cables.length) ;;
   (allM dA.cables fun c =>
     match c.name with
@@ -360,10 +383,10 @@ def compareWith (cfg : Cfg) (a b : CNetlist) : Res :=
     | none => ok
     | some nm => withFound (·.name) nm b.libs fun l' => cmpLib cfg a b l l'
 
-/-- The comparer as repaired (docs/fixes/compare_outer_pins.diff). -/
-def compare (a b : CNetlist) : Res := compareWith ⟨true⟩ a b
+/-- The comparer with every repair of docs/fixes/compare_*.diff applied. -/
+def compare (a b : CNetlist) : Res := compareWith cfgFixed a b
 
 /-- The comparer of the pinned commit. -/
-def compareUnrepaired (a b : CNetlist) : Res := compareWith ⟨false⟩ a b
+def compareUnrepaired (a b : CNetlist) : Res := compareWith cfgPinned a b
 
 end Spydr.Compare
